@@ -3,7 +3,9 @@
    input/output rows, insert_return_vars and DFContainer; expression/statement compilers,
    generics, nested functions and comptime are only differentially validated by the check. *)
 From Coq Require Import ZArith List Bool Lia Permutation Sorted.
-From V.C01 Require Import ModelLower ModelObs ProofsCmp ProofsLower ProofsRet ModelDfc ProofsDfc.
+From V.C09 Require Import Analysis.
+From V.C06 Require Linearity Token.
+From V.C01 Require Import ModelLower ModelObs ProofsCmp ProofsLower ProofsRet ModelDfc ProofsDfc ModelCond ProofsCond ModelBridge ProofsBridge ExBridge.
 Import ListNotations.
 Open Scope Z_scope.
 
@@ -57,6 +59,66 @@ Theorem rows_agree : forall c, cfg_ok c = true ->
 Proof. exact rows_agree_main. Qed.
 Print Assumptions rows_agree.
 
+(* cfg_ok = structural part (rows duplicate-free, edge rows list the successor's places, shape)
+   + the linearity checker's part (non-droppable places live in all successors or in none) *)
+Theorem cfg_ok_parts : forall c, cfg_ok c = cfg_struct_ok c && cfg_lin_ok c.
+Proof. exact cfg_ok_split. Qed.
+Print Assumptions cfg_ok_parts.
+
+(* The linearity part is no longer assumed where the C06 model applies: if C06's model of
+   check_cfg_linearity accepts the checked CFG lc (uniform kinds, builder-shaped), and the rows of the
+   lowered CFG m are read off the place-level liveness that check computes (`reads`: the
+   non-droppable items of the k-th output row of block i are the places pl x of the linear leaves x
+   live before its k-th successor -- this is live_places_row), then the structural part alone
+   gives rows_agree.  The linearity conjunct comes from C06.live_rows_agree's proof
+   (ProofsSound.succ_rows_agree). *)
+Theorem rows_agree_from_c06 : forall fx lc sched K pl m L,
+  Token.uniform K lc -> Token.wf_shape lc ->
+  Linearity.check_cfg fx lc sched = Linearity.Accept ->
+  c06_live lc sched = Some L -> reads lc L K pl m ->
+  cfg_struct_ok m = true ->
+  forall i b k s, nth_error (c_bbs m) i = Some b -> i <> ModelLower.c_exit m ->
+  nth_error (b_succs b) k = Some s ->
+  delivered m b k = Some (declared m s).
+Proof.
+  intros fx lc sched K pl m L HK HW HA HL Hr Hs. apply rows_agree_main.
+  eapply cfg_ok_from_c06; eauto.
+Qed.
+Print Assumptions rows_agree_from_c06.
+
+(* the hypotheses of rows_agree_from_c06 hold on a real function (terms dumped from /repo): C06's
+   model accepts it, kinds are uniform, the shape is the builder's, the rows are read off C06's
+   liveness, the structural part holds -- and the conclusion is what the HUGR shows *)
+Example ex_bridge_hyps :
+  Linearity.check_cfg true ex_lc [] = Linearity.Accept /\
+  Hyps.uniformb ex_lc = true /\ Hyps.wf_shapeb ex_lc = true /\
+  (exists L, c06_live ex_lc [] = Some L /\
+             reads_b ex_lc L (Hyps.K_of (Token.all_leaves ex_lc)) ex_tbl ex_m = true) /\
+  cfg_struct_ok ex_m = true /\
+  delivered ex_m (get_bb ex_m 0) 1 = Some [ex_; eq_].
+Proof.
+  split; [vm_compute; reflexivity|]. split; [vm_compute; reflexivity|]. split; [vm_compute; reflexivity|].
+  split; [|split; vm_compute; reflexivity].
+  destruct (c06_live ex_lc []) as [L|] eqn:E; [|vm_compute in E; discriminate].
+  exists L. split; auto. vm_compute in E. inversion E; subst. vm_compute. reflexivity.
+Qed.
+
+(* reads_b (what the harness evaluates on every dumped CFG) implies the hypothesis `reads` *)
+Theorem reads_decidable : forall lc L K tbl m, reads_b lc L K tbl m = true -> reads lc L K (pl_of tbl) m.
+Proof. exact reads_b_sound. Qed.
+Print Assumptions reads_decidable.
+
+(* ---- the Conditional built by choose_vars_for_tuple_sum ---------------------------------- *)
+
+(* With rows taken from one scope (equal id => equal place), on branch k the Conditional's case k
+   tags with k and its payload is exactly variant k's row: the wire of each place of the row, with
+   the row's type, in the row's order -- although every case receives all wires of all rows and
+   picks by position in the id-keyed dict all_vars. *)
+Theorem conditional_delivers : forall rows k r, rows_consistent rows = true ->
+  nth_error rows k = Some r -> eval_conditional rows k = Some (k, map val_of r).
+Proof. exact conditional_delivers_main. Qed.
+Print Assumptions conditional_delivers.
+
 (* ---- exit rows and insert_return_vars --------------------------------------------------- *)
 
 (* after insert_return_vars the CFG node's output row is FunctionType.to_hugr's output row:
@@ -109,6 +171,14 @@ Example ex_tuple_sum : block_outputs ex_cfg' (get_bb ex_cfg' 0) = Some ([[]; [vx
   /\ declared ex_cfg' 1 = [vx; vq]
   /\ delivered ex_cfg' (get_bb ex_cfg' 1) 0 = Some [vy; vq]
   /\ declared ex_cfg' 3 = [vy; vq].
+Proof. vm_compute. repeat split; reflexivity. Qed.
+
+Example ex_conditional :
+  tuple_sum_rows (get_bb ex_cfg' 0) = [[]; [vx]] /\ rows_consistent (tuple_sum_rows (get_bb ex_cfg' 0)) = true
+  /\ cond_inputs (tuple_sum_rows (get_bb ex_cfg' 0)) = [val_of vx]
+  /\ eval_conditional (tuple_sum_rows (get_bb ex_cfg' 0)) 1 = Some (1%nat, [val_of vx])
+  /\ eval_conditional [[vx; vy]; [vy]; [vb; vx]] 2 = Some (2%nat, [val_of vb; val_of vx])
+  /\ case_indices [[vx; vy]; [vy]; [vb; vx]] 2 = Some [2%nat; 0%nat].
 Proof. vm_compute. repeat split; reflexivity. Qed.
 
 Example ex_idempotent : guarded_insert ex_cfg' = Some ex_cfg'.
